@@ -199,6 +199,32 @@ Definition slot_missing (o : option (col (payload Z tentry))) : bool :=
   end.
 Definition mrec_missing (r : tmrec) : bool := existsb slot_missing (rlist (mcols r)).
 
+(* does the table hold every (class, text) pair parsing `line` under these
+   names and this scheme will build?  (a case whose tables are incomplete is
+   answered with the bad-case marker, never with a guess) *)
+Definition line_complete (tb : tables) (sch : option tscheme) (names : option (list str)) (line : str) : bool :=
+  match (match names with
+         | Some ns => Some ns
+         | None => option_map (fun s => s_names s) sch
+         end) with
+  | None => true
+  | Some ns =>
+      let vs := split TAB (rstrip_crlf line) in
+      if Nat.eqb (length ns) (length vs) then
+        forallb (fun nv =>
+                   match sch with
+                   | Some s =>
+                       if s_truthy s then
+                         match s_class s (fst nv) with
+                         | Some (CTyped k) => is_some (lookup_typed k (snd nv) (tb_typed tb))
+                         | _ => true
+                         end
+                       else true
+                   | None => true
+                   end) (zip ns vs)
+      else true
+  end.
+
 Definition enc_ending (e : ending) : sexp :=
   match e with EndStop => L [] | EndRaise x => L [s_of_exn x] end.
 
@@ -232,6 +258,7 @@ Definition run_reader (m : option mode) (override : option tscheme) (reg : list 
     existsb mrec_missing (run_recs r)
     || match run_init r with
        | Ok rd => elided_hit reg (hrecs (rd_header rd))
+                  || negb (forallb (line_complete tb (rd_scheme rd) None) lines)
        | Raise _ => false
        end in
   if bad then s_bad
@@ -246,6 +273,9 @@ Definition run_reader (m : option mode) (override : option tscheme) (reg : list 
 
 Definition run_from_line (rs : recspec) (m : option mode) (tb : tables) : out tmrec :=
   from_line (table_sem tb) (rs_line rs) (rs_names rs) (rs_scheme rs) (rs_ln rs) m LgRoot.
+
+Definition spec_complete (tb : tables) (rs : recspec) : bool :=
+  line_complete tb (rs_scheme rs) (rs_names rs) (rs_line rs).
 
 Definition guard_mrec (tb : tables) (o : out tmrec) : sexp :=
   match snd o with
@@ -333,18 +363,21 @@ Definition dispatch1 (s : sexp) : sexp :=
       end
   | L [A 2; rs; m; tb] =>
       match dec_recspec rs, as_mode_opt m, dec_tables tb with
-      | Some rs', Some m', Some tb' => guard_mrec tb' (run_from_line rs' m' tb')
+      | Some rs', Some m', Some tb' =>
+          if spec_complete tb' rs' then guard_mrec tb' (run_from_line rs' m' tb') else s_bad
       | _, _, _ => s_bad
       end
   | L [A 3; rs; vm; reset; sch; tb] =>
       match dec_recspec rs, as_mode_opt vm, as_bool reset, as_opt dec_scheme sch, dec_tables tb with
-      | Some rs', Some vm', Some reset', Some sch', Some tb' => run_validate rs' vm' reset' sch' tb'
+      | Some rs', Some vm', Some reset', Some sch', Some tb' =>
+          if spec_complete tb' rs' then run_validate rs' vm' reset' sch' tb' else s_bad
       | _, _, _, _, _ => s_bad
       end
   | L [A 4; m; hl; reg; tb; specs] =>
       match as_mode_opt m, as_listof as_str hl, as_listof dec_scheme_e reg, dec_tables tb,
             as_listof dec_recspec specs with
-      | Some m', Some hl', Some reg', Some tb', Some specs' => run_writer m' hl' reg' tb' specs'
+      | Some m', Some hl', Some reg', Some tb', Some specs' =>
+          if forallb (spec_complete tb') specs' then run_writer m' hl' reg' tb' specs' else s_bad
       | _, _, _, _, _ => s_bad
       end
   | L [A 5; hl; reg; mc; ms] =>
